@@ -46,6 +46,13 @@ def plan(tier, seed):
         shards.append({"kind": "offset", "sub": sub, "nb": 12 if tier == "quick" else 40})
     for sub in range(4 if tier == "quick" else 32):
         shards.append({"kind": "range", "sub": sub, "n": 1500 if tier == "quick" else 8000})
+    # windows holding more than a million boundaries (a list of that length is an ordinary result)
+    shards.append({"kind": "long-range", "unit": "second", "days": 12.5, "step": 1})
+    shards.append({"kind": "long-range", "unit": "minute", "days": 2.1 * 365, "step": 7})
+    if tier != "quick":
+        shards.append({"kind": "long-range", "unit": "hour", "days": 120 * 365.25, "step": 1})
+        shards.append({"kind": "long-range", "unit": "second", "days": 40, "step": 30})
+        shards.append({"kind": "long-range", "unit": "day", "days": 299 * 365.25, "step": 1})
     shards.append({"kind": "repo-tests", "part": "calendar"})
     shards.append({"kind": "insitu-exports", "n": 150 if tier == "quick" else 2000})
     return shards
@@ -58,7 +65,7 @@ def floors(tier):
             ev["%s.%s" % (u, op)] = 100000
         ev["%s.offset" % u] = 300
         ev["%s.range" % u] = 150
-    return {"evaluations": 2000000, "strata": ["days", "hours", "random", "offset", "range"], "events": ev, "distinct_nontrivial": 100000}
+    return {"evaluations": 2000000, "strata": ["days", "hours", "random", "offset", "range", "long-range"], "events": ev, "distinct_nontrivial": 100000}
 
 
 def _flush(ctx, mon, stratum, v0, nontrivial):
@@ -226,6 +233,14 @@ def worker(ctx, shard):
             if got is not None and len(got) >= 2:
                 nontriv += 1
         _flush(ctx, mon, "range", v0, nontriv)
+    if kind == "long-range":
+        rng = ctx.rng("long-range" + shard["unit"])
+        start = datetime(rng.choice([1901, 1969, 2000, 2038]), rng.randrange(1, 13), rng.randrange(1, 28), rng.randrange(24), rng.randrange(60), rng.randrange(60), 1000 * rng.randrange(1000))
+        stop = start + timedelta(days=shard["days"])
+        got = _call(iv[shard["unit"]].range, start, stop, shard["step"])
+        if got is not None:
+            ctx.event("long_range_boundaries_before_step_filter", int(shard["days"] * 86400 / {"second": 1, "minute": 60, "hour": 3600, "day": 86400}[shard["unit"]]))
+        _flush(ctx, mon, "long-range", v0, 1)
     if kind == "repo-tests":
         from props import workload_r
 
